@@ -138,7 +138,8 @@ fn settings(row: &Row, filler: u64) -> Vec<Setting> {
     let mut v = vec![
         Setting { section: "environment", key: "type", value: toml_str(&row.env), env_value: row.env.clone(), is_default: row.env == "production" },
         Setting { section: "persistence", key: "fsync_policy", value: toml_str(&row.fsync), env_value: row.fsync.clone(), is_default: row.fsync == "data_only" },
-        Setting { section: "persistence", key: "snapshot_interval_mutations", value: row.snapshot_interval.to_string(), env_value: row.snapshot_interval.to_string(), is_default: false },
+        // one row in five names the setting by its legacy key (a serde alias of the same field)
+        Setting { section: "persistence", key: if filler % 5 == 0 { "snapshot_interval_inserts" } else { "snapshot_interval_mutations" }, value: row.snapshot_interval.to_string(), env_value: row.snapshot_interval.to_string(), is_default: false },
         Setting { section: "persistence", key: "recovery_mode", value: toml_str(&row.recovery), env_value: row.recovery.clone(), is_default: row.recovery == "strict" },
         Setting { section: "persistence", key: "allow_fresh_start_on_recovery_failure", value: b(row.fresh_start), env_value: b(row.fresh_start), is_default: !row.fresh_start },
         Setting { section: "cache", key: "strategy", value: toml_str(&row.strategy), env_value: row.strategy.clone(), is_default: false },
@@ -481,7 +482,7 @@ fn server_cases(ctx: &Ctx) -> Vec<SCase> {
             if v.len() < n && !v.contains(&j) {
                 v.push(j);
             }
-        } else if bad.is_empty() && row.env.trim().eq_ignore_ascii_case("benchmark") && !row.auth && !row.tls && row.obs_auth == "disabled" && row.host.starts_with("127.") && controls.len() < ctx.tier.pick(6, 24) && !controls.contains(&j) {
+        } else if bad.is_empty() && row.env.trim().eq_ignore_ascii_case("benchmark") && !row.auth && !row.tls && row.obs_auth == "disabled" && row.host.starts_with("127.") && crate::common::tape::fnv64(serde_json::to_string(&row).unwrap().as_bytes()) % 5 != 0 && controls.len() < ctx.tier.pick(6, 24) && !controls.contains(&j) {
             controls.push(j);
         }
         if i > 40_000 && per_cond.values().all(|v| v.len() >= n) {
